@@ -192,6 +192,24 @@ pub fn subs() -> Vec<Box<dyn AnySub>> {
             strat: || (plan(PlanOpts { logical: LogicalOpts { body_class: 1, ..LogicalOpts::default() }, ..PlanOpts::default() }), super::c01::mutation()).prop_map(|(plan, mutation)| super::c01::Mutated { plan, mutation }).boxed(),
             check: check_mutated_total,
         }),
+        // the success path (whatever runs after the signature has been verified) needs requests that verify
+        Box::new(Sub {
+            name: "valid",
+            quick: 25_000,
+            thorough: 400_000,
+            strat: || plan(PlanOpts { logical: LogicalOpts { body_class: 1, ..LogicalOpts::default() }, ..PlanOpts::default() }),
+            check: |p, cc| {
+                let Ok(built) = p.build() else { return Ok(()) };
+                let o = exec::run(&built.case);
+                cc.class(if o.res.is_ok() { "accepted" } else { "not-accepted" });
+                cc.class_if(o.res.is_ok() && !built.case.req.uri.starts_with('/'), "accepted-with-non-origin-form-target");
+                cc.class_if(o.res.is_ok() && p.cfg.fold && p.form.is_some(), "accepted-folded-form");
+                if o.res.is_ok() {
+                    cc.nontrivial(digest_of(&[&built.case.req.digest().to_le_bytes(), b"valid"]));
+                }
+                check_total(&o)
+            },
+        }),
         Box::new(Sub {
             name: "large",
             quick: 160,
